@@ -68,7 +68,9 @@ CHECKS["C19"] = dict(
           "exactly the tracked map. part collector: histories of accesses on 1..4 per-backend counters, collect, clock advance, evict, "
           "counter free on a real Collector; after every step HotKeys() has <= capacity entries, unique names, non-increasing heat, only "
           "accessed names. part concurrent: goroutines Incr/Latch one counter; latched sum <= accesses and == accesses when capacity >= "
-          "distinct keys. Non-trivial: an eviction happened or a frequency node was created/removed inside the list (counter); >=2 "
+          "distinct keys. part e2e: a real proxy (collect interval hooked to 15 ms) in front of 1..3 simulated masters, 1..4 rounds of 1..300 "
+          "GETs over 1..120 distinct keys, HOTKEY after each round: parseable, <= 50 lines, unique names that were accessed, non-increasing "
+          "counters. Non-trivial: an eviction happened or a frequency node was created/removed inside the list (counter); >=2 "
           "collections and the report reached capacity (collector); every concurrent case. Distinct by canonical JSON of the history."),
     assumptions=["capacity 0 is excluded: no caller can create it (the collector is built with 50)",
                  "report order is checked at quiescent points only (a HOTKEY read overlapping collect() is a schedule the harness does not own)",
@@ -77,6 +79,7 @@ CHECKS["C19"] = dict(
         dict(name="counter", test="TestCounterModel", kind="rapid", checks={"quick": 4000, "thorough": 250000}, shards=16, timeout={"quick": 600, "thorough": 3000}),
         dict(name="collector", test="TestCollectorModel", kind="rapid", checks={"quick": 3000, "thorough": 100000}, shards=8, timeout={"quick": 600, "thorough": 3000}),
         dict(name="concurrent", test="TestCounterConcurrent", kind="rapid", checks={"quick": 60, "thorough": 3000}, shards=4, timeout={"quick": 600, "thorough": 3000}),
+        dict(name="e2e", test="TestHotkeyE2E", kind="rapid", checks={"quick": 12, "thorough": 600}, shards=8, timeout={"quick": 600, "thorough": 3000}, gomaxprocs=4),
     ],
 )
 
@@ -139,7 +142,12 @@ CHECKS["C17"] = dict(
           "bytes is an error, never a panic; part frame-boundaries enumerates 13 total lengths x 18 declared lengths. part sequences: "
           "hotrestart.New(scripted instance) as parent, 1..3 raw unix-socket children each sending 0..6 steps (the four requests with or "
           "without JSON payload, unknown types, malformed frames, child disappearing without reading the reply): recorded Instance calls / "
-          "kill == requested steps in order, one per request, matching reply types, unknown -> unknown reply, next child served. "
+          "kill == requested steps in order, one per request, matching reply types, unknown -> unknown reply, next child served. part "
+          "binary: the real samaritan binary (built from /repo through the harness module) with a generated bootstrap (admin port, one TCP "
+          "service in front of an echo backend, one established client connection) driven over its abstract unix control socket with 0..6 "
+          "generated steps (admin / localconf / drain with or without JSON payload, unknown types, malformed frames) followed by "
+          "terminate: every reply matches, the process stays alive until terminate and then exits 0 within 15 s, after the admin step the "
+          "admin port refuses, after the drain step new service connections are not served while the established one still echoes. "
           "Non-trivial: declared != carried (frames); sequence contains a malformed/unknown frame or a child hand-over. Distinct by "
           "(length, declared, type, fill) resp. canonical JSON."),
     assumptions=["each frame is written by one write of <= 4096 bytes and the next frame is only sent after the parent consumed the previous one "
@@ -150,6 +158,8 @@ CHECKS["C17"] = dict(
         dict(name="frame-boundaries", test="TestFrameBoundaries", kind="plain"),
         dict(name="sequences", test="TestSequences", kind="rapid", checks={"quick": 400, "thorough": 12000}, shards=8, timeout={"quick": 600, "thorough": 3000},
              crash_is_violation=True),
+        dict(name="binary", test="TestBinary", kind="rapid", checks={"quick": 10, "thorough": 150}, shards=8, timeout={"quick": 600, "thorough": 3000},
+             needs_binary=True, shrinktime="60s"),
     ],
 )
 
